@@ -1,4 +1,4 @@
-import HmsProofs.Lemmas.SimHRead
+import HmsProofs.Lemmas.SimHCast
 /-!
 # Expressions of the general fragment: the induction steps
 -/
@@ -127,6 +127,17 @@ theorem pe_step (G : GCtx) (hG : G.OK') (n : Nat) (hPE : ∀ m, m ≤ n → PE G
             reach_pre G.code G.lim (baseOf (withIt G.s it_) A.fn A.rest A.mp st1.world) _ k stk mem1 ⟨A.fn, 0⟩ A.rest A.c rfl
               hA.code op sp A.lab A.σ a v ov hi hpo)))).cast ?_, hml⟩
           omega
+    case cast sp ty e =>
+      simp only [Bool.and_eq_true] at hok
+      obtain ⟨⟨_, hty⟩, hoke⟩ := hok
+      have hplA : Placed A.lab A.σ A.c ip (cgE G.mod (ρS scopes) A.φ e lm).1 := by
+        have h := hpl
+        simp only [cgE] at h
+        exact h.append.1
+      exact cast_step G A hA n sp ty e hty st ip stk mem lm scopes hpl
+        (ihn A hA e st ip stk mem lm scopes vm hoke
+          (by simpa [Frag.wsGE, Frag.varsGE, Frag.callsGE] using hws)
+          (by simpa [Frag.namesGE, Frag.varsGE, Frag.callsGE] using hT) hplA hrel hsp)
     case «infix» sp ty op l r =>
       have hnp : Frag.pureE (.infix sp ty op l r) = false := by simpa using hp
       simp only [hnp, Bool.false_or, Bool.and_eq_true, Bool.not_eq_eq_eq_not, Bool.not_true] at hok
